@@ -160,8 +160,9 @@ def obligations(cx):
         for r in returns(ps):
             v = r.value
             if isinstance(v, Obj) and 'data' in v.f: v = v.f['data']
-            if not isinstance(v, Seq): raise Unsupported("%s is not built element-wise" % what)
-            for q in returns(explore_thunk(r.ex, lambda: r.ex.seq_get(v, j), list(r.pc) + hyp)): out.append(q)
+            from ..symex import Post as _Post
+            if not isinstance(v, (Seq, _Post)): raise Unsupported("%s is not built element-wise" % what)
+            for q in returns(explore_thunk(r.ex, lambda: r.ex.index(v, j), list(r.pc) + hyp)): out.append(q)       # comprehension (Seq) or append loop (Post)
         return out
     for attr, fnm in (('get_separation_factor', 'DiffusionCurve.get_separation_factor'), ('get_psi', 'DiffusionCurve.get_psi')):
         cx.under_contract(fnm)
@@ -237,7 +238,7 @@ def set_level_measurements(cx, mix, Tt):
                 data = r.value.f['data']
                 total = lift(0)
                 for c in range(k): total = total + var('n%d' % c, 'I')
-                cx.ob("measurements-set.%s.%d-curves.%d.length" % (which, k, ri), r.pc, eq(data.n, total) if isinstance(data, Seq) else FALSE, function=fnm,
+                cx.ob("measurements-set.%s.%d-curves.%d.length" % (which, k, ri), r.pc, eq(need_seq(data, 'measurement list').n, total), function=fnm,
                       statement="the set-level measurements contain every point of every curve")
                 off = lift(0)
                 for c in range(k):
